@@ -27,6 +27,8 @@ DELETE = ['DeleteJson', 'DeleteToml', 'SplitBack']
 EXPAND = ['ExpandJson', 'ExpandToml', 'SplitBack']
 ASSIGN = [f + b for b in ('Json', 'Toml') for f in ('AssignScalar', 'AssignObject', 'AssignArray', 'AssignValue', 'Assign')] + ['SplitFront', 'IsRoot', 'ForLenIncl']
 LABELS = [n + 'Err' + a for n in ('Resolve', 'Assign') for a in ('Position', 'Offset', 'Labels')]
+PREDS_WALK = ['ResolveErrIsUnreachable', 'ResolveErrIsNotFound', 'ResolveErrIsOutOfBounds', 'ResolveErrIsFailedToParseIndex', 'AssignErrIsOutOfBounds', 'AssignErrIsFailedToParseIndex']
+PREDS_PARSE = ['ParseErrIsNoLeadingSlash', 'ParseErrIsInvalidEncoding']
 PARSEERR = ['ParseErrOffset', 'ParseErrPointerOffset', 'ParseErrSourceOffset', 'ParseErrCompleteOffset', 'ParseErrInvalidEncodingLen', 'ParseErrLabels']
 CMP = [sp['id'] for sp in rs2lean.FUNCS if sp.get('cmpimpl')]
 DOORS = ['Validate', 'PointerParse', 'PointerBufParse', 'BufTryFromString', 'BufTryFromStr', 'BufFromStr']
@@ -45,8 +47,8 @@ def _u(*ls):
 PROP_FUNCS = {
     'C01': _u(['ValidateBytes'], DOORS, TOKEN, SLICE, POINTER, BUF, BUILD),
     'C11': _u(BUF, ['IsRoot', 'Count']),
-    'C02': _u(['ValidateBytes'], DOORS, ['DeserializePointerBuf', 'VisitBorrowedStr']), 'C14': _u(['ValidateBytes'], PARSEERR, DOORS),
-    'C05': _u(WALKS, ['IndexFromStr', 'ForLen'], TOIDX), 'C09': _u(WALKS, DELETE, EXPAND, ASSIGN, ['IndexFromStr', 'ForLen'], TOIDX, ['DisplayToken']), 'C15': _u(WALKS, ASSIGN, LABELS, ['IndexFromStr', 'ForLen'], TOIDX),
+    'C02': _u(['ValidateBytes'], DOORS, ['DeserializePointerBuf', 'VisitBorrowedStr']), 'C14': _u(['ValidateBytes'], PARSEERR, DOORS, PREDS_PARSE),
+    'C05': _u(WALKS, ['IndexFromStr', 'ForLen'], TOIDX), 'C09': _u(WALKS, DELETE, EXPAND, ASSIGN, ['IndexFromStr', 'ForLen'], TOIDX, ['DisplayToken']), 'C15': _u(WALKS, ASSIGN, LABELS, PREDS_WALK, ['IndexFromStr', 'ForLen'], TOIDX),
     'C08': _u(WALKS, DELETE, ['IndexFromStr', 'ForLen'], TOIDX), 'C10': _u(WALKS, DELETE, EXPAND, ASSIGN, ['IndexFromStr', 'ForLen'], TOIDX, ['DisplayToken']),
     'C06': _u(EXPAND, ASSIGN, ['IndexFromStr', 'ForLenIncl'], TOIDX, ['DisplayToken']), 'C07': _u(EXPAND, ASSIGN, ['IndexFromStr', 'ForLenIncl'], TOIDX, ['DisplayToken']),
     'C17': CMP, 'C18': _u(DISPLAY, SERDE, ['BufTryFromString', 'PointerParse', 'Validate', 'ValidateBytes']),
@@ -101,6 +103,7 @@ TIE_THEOREMS = {
     'ResolveMutJson': ['Jp.Tie.resolve_mut_json_eq'], 'ResolveToml': ['Jp.Tie.resolve_toml_eq'], 'ResolveMutToml': ['Jp.Tie.resolve_mut_toml_eq'],
 }
 for _i in CMP: TIE_THEOREMS[_i] = [f'Jp.Tie.cmp_{_i}_eq']
+for _i in PREDS_WALK + PREDS_PARSE: TIE_THEOREMS[_i] = ['Jp.Tie.' + _i[0].lower() + _i[1:] + '_iff']
 TRANSPORT_THEOREMS = {
     'TransportSerde': ['gen_serde_roundtrip', 'gen_serde_refuses'],
     'TransportIter': ['gen_tokens_iter_eq', 'gen_components_iter_eq', 'gen_tokens_iter_fused'],
